@@ -159,7 +159,11 @@ RunResult run_plan(const Plan &p, Totals *tot) {
             simrt::heap_op_begin(p.programs[t][i].fault);
             uint64_t d = do_op(S.pool, priv, p.programs[t][i]);
             simrt::heap_op_end();
-            if (d != S.digests[t][i] && !V.set) {
+            // From the first operation of a program that carries an allocation fault onwards its results are not compared: "the k-th allocation of
+            // this operation" is a different allocation when correctly synchronised shared state (a cache that hit in one run and missed in the
+            // other) changes how many allocations the operation makes - and what the thread's own objects hold afterwards follows from that.
+            bool after_fault = false; for (size_t j = 0; j <= i; j++) after_fault |= p.programs[t][j].fault != 0;
+            if (d != S.digests[t][i] && !V.set && !after_fault) {
                 V.set = true; V.cls = "result_divergence"; V.site = std::string("diverge(") + bop_name(p.programs[t][i].kind) + ")";
                 V.msg = "thread " + std::to_string(t + 1) + " op #" + std::to_string(i) + " (" + bop_name(p.programs[t][i].kind) + ") produced a different result under the concurrent schedule than when run alone";
             }
@@ -171,12 +175,14 @@ RunResult run_plan(const Plan &p, Totals *tot) {
     // phase and shares whatever process-wide state that phase built up.)
     if (!p.expected.empty() && !V.set)
         for (size_t t = 0; t < n && t < p.expected.size() && !V.set; t++)
-            for (size_t i = 0; i < p.programs[t].size() && i < p.expected[t].size(); i++)
+            for (size_t i = 0; i < p.programs[t].size() && i < p.expected[t].size(); i++) {
+                if (p.programs[t][i].fault) break;      // (see above)
                 if (S.digests[t][i] != p.expected[t][i]) {
                     V.set = true; V.cls = "result_divergence"; V.site = std::string("diverge(") + bop_name(p.programs[t][i].kind) + ")";
                     V.msg = "thread " + std::to_string(t + 1) + " op #" + std::to_string(i) + " (" + bop_name(p.programs[t][i].kind) + ") produced a different result next to the other threads than the same program produces alone in a process of its own";
                     break;
                 }
+            }
     { simrt::SutScope sut; pool_destroy(S.pool); }
     size_t live = simrt::heap_end_run(); (void)live;
     char d[200]; simrt::HeapViolation hv = simrt::heap_take_violation(d, sizeof d);
